@@ -44,6 +44,7 @@ def plan(ctx):
     cases += [("mpool", i) for i in range(12 if t else 2)]
     cases += [("fresh", i) for i in range(8 if t else 1)]
     cases += [("analysis", i) for i in range(12 if t else 3)]
+    cases += [("seedfunnel", 0)]
     return cases
 
 
@@ -510,6 +511,33 @@ def analysis_case(ctx, g):
                           f"the result of {name} must not depend on the global random state", tags=dict(entry=name, what="depends-on-global"))
 
 
+def seedfunnel_case(ctx, g):
+    """successive prior.sample(rng=generator) calls: a concrete pair of calls on ONE generator that return the same draws
+    (found by a birthday search over seeds in bug-hunt round 2; the call is a function of one 30-bit number taken from the
+    generator)"""
+    import astropy.units as u
+    import pymc as pm
+    import thejoker as tj
+    import histlib as hl
+    SEED, I, J = 1761918, 1, 24
+    rel = "prior.sample: successive calls on one generator never return the same draws"
+    with pm.Model():
+        prior = tj.JokerPrior.default(P_min=2 * u.day, P_max=256 * u.day, sigma_K0=30 * u.km / u.s, sigma_v=100 * u.km / u.s)
+    rng = np.random.default_rng(SEED)
+    calls = [hl.table_arrays(prior.sample(size=16, generate_linear=True, rng=rng)) for _ in range(J + 1)]
+    digests = [hl.digest(c) for c in calls]
+    inp = dict(seed=SEED, calls=J + 1, size=16, generate_linear=True, prior="JokerPrior.default(P_min=2 d, P_max=256 d, sigma_K0=30 km/s, sigma_v=100 km/s)")
+    ctx.evaluated(rel, ("seedfunnel", SEED), sample=dict(inp, distinct=len(set(digests))))
+    ctx.count("entry:prior.sample:successive-calls", J + 1)
+    if len(set(digests)) != len(digests):
+        same = [(i, j) for i in range(len(digests)) for j in range(i + 1, len(digests)) if digests[i] == digests[j]]
+        ctx.violation(rel, g, inp, dict(identical_calls=same, K_first=np.asarray(calls[same[0][0]]["K"][1])[:3].tolist(),
+                                        K_second=np.asarray(calls[same[0][1]]["K"][1])[:3].tolist()), dict(distinct_calls=J + 1),
+                      f"calls #{same[0][0]} and #{same[0][1]} on the same generator return bit-identical samples in every column "
+                      "(nonlinear and linear): the draws are repeated across calls",
+                      tags=dict(entry="prior.sample", what="successive prior.sample calls funnelled through one 30-bit seed"))
+
+
 def _run_case(ctx, g):
     kind = g["kind"]
     ctx.seed = g.get("seed", ctx.seed)
@@ -527,6 +555,8 @@ def _run_case(ctx, g):
         mpool_case(ctx, g)
     elif kind == "fresh":
         fresh_case(ctx, g)
+    elif kind == "seedfunnel":
+        seedfunnel_case(ctx, g)
 
 
 def post(ctx):
